@@ -15,6 +15,7 @@ import (
 	"math/rand"
 	"os"
 	"runtime"
+	"sort"
 	"time"
 
 	"github.com/smart-core-os/sc-golang/verifharness/lib"
@@ -33,6 +34,7 @@ func main() {
 			"(ExecuteAll/Most/Any/One/Fast/Race, ExecuteUpTo with every allowedErrors in -1..n); members are gated and released in the chosen order; "+
 			"and, for 1..3 members through group.Execute with the six strategies, the same with the failing members' errors taken from each of 9 further error classes "+
 			"(context.Canceled / DeadlineExceeded of the member's own, wrapped ones, gRPC status Canceled/DeadlineExceeded/Unavailable, a net.Error-like timeout, io.EOF) while the group's context is alive; "+
+			"and, for 1..3 members through Execute with the six strategies and ExecuteUpTo with every budget 0..n-1, members that all watch their context x every ok/fail vector x every order x the caller's context ending after each number of completions 0..n-1 x by cancellation / by its deadline; "+
 			"compared: result slice or (msg,index,error), which error, the point at which the call returned, the members' context state after each completion, "+
 			"what each member saw, which members were started, goroutines left. non-trivial = n >= 1; distinct by full input")
 	exh.Exhaustive = true
@@ -41,6 +43,11 @@ func main() {
 			"(the member's own context.Canceled/DeadlineExceeded, wrapped, gRPC status, net timeout, io.EOF); "+
 			"~40% are cancellation-aware (return a different response when they find their context cancelled); the caller's context is cancelled after a random "+
 			"number of completions in ~25% of cases; random completion order, strategy, API and allowedErrors in -2..n+1. non-trivial = n >= 2; distinct by full input")
+	large := res.Tie("group-large", "K1",
+		"LARGE groups, run last: 9, 10, 16, 17, 33, 65, 100 members (thorough: 19 sizes up to 257, on both sides of 8/16/32/64/128/256) x every strategy through both APIs; Fast and Race: all succeed released in index order, "+
+			"all succeed released in reverse order (the winner is the last index), all fail in random order, and a random mix in random order; the draining strategies and One: a random mix in random order "+
+			"(1 in 2..5 members fails, a quarter cancellation-aware, ExecuteUpTo with a budget from {-1, 0, 1, n/2, n-1, n}), the draining strategies also with exactly n/2, n/2+1 and n-1 failing members (the thresholds of Most and Any at that size; ExecuteUpTo with the budget met exactly or exceeded by one); plus random cases with 10..24 members. Same serial schedule, same comparison as group-random; "+
+			"what only a large group shows: anything sized by a constant instead of len(members) (a bounded response buffer: losers of Fast/Race parked for ever in their send). non-trivial = all; distinct by full input")
 	mon := res.Monitor("strategy-contracts",
 		"every tie case is also judged by the contracts written in Go from the doc comments: error presence by failure count vs budget, error identity = first failure in completion order, "+
 			"results[i] identical to member i's message, single result at its own index, One tries in index order, return point, context cancelled exactly when decided, no panic, no goroutine left")
@@ -57,20 +64,14 @@ func main() {
 		isExh = append(isExh, false)
 	}
 
-	var answers []string
 	drv, err := lib.StartDriver(f.Driver)
-	if err == nil {
-		defer drv.Close()
-		lines := make([]string, len(cases))
-		for i, c := range cases {
-			lines[i] = c.line()
-		}
-		answers, err = drv.Batch(lines)
-	}
 	if err != nil {
 		exh.Fail(err)
 		rnd.Fail(err)
-		answers = nil
+		large.Fail(err)
+		drv = nil
+	} else {
+		defer drv.Close()
 	}
 
 	// Scheduling of the harness process.  Every observation is made at a point of quiescence found by
@@ -79,52 +80,154 @@ func main() {
 	// other checks run).  The schedules the harness realises are serial by construction (release one
 	// member, wait until nothing can move), so the bulk runs on one P; the last tenth of the random cases
 	// runs on 4 Ps so that the goroutines of executeEach also really run in parallel.
+	baselineGoroutines = runtime.NumGoroutine()
 	prevProcs := runtime.GOMAXPROCS(1)
 	defer runtime.GOMAXPROCS(prevProcs)
-	parallelFrom := len(cases) - f.N(300, 6000)
 	t0 := time.Now()
-	leaks := map[string]int{}
+	runGroupCases(cases, drv, mon, len(cases)-f.N(300, 6000), func(i int) (*lib.Tie, bool) {
+		if isExh[i] {
+			return exh, cases[i].n() >= 1
+		}
+		return rnd, cases[i].n() >= 2
+	})
+	fmt.Fprintf(os.Stderr, "c17: %d gated pkg/group cases in %v (%d goroutines now)\n", len(cases), time.Since(t0).Round(time.Millisecond), runtime.NumGoroutine())
+	t0 = time.Now()
+	runtime.GOMAXPROCS(1)
+	runGatedAdapters(f, res, drv, rng)
+	fmt.Fprintf(os.Stderr, "c17: Group adapters (gated members) in %v (%d goroutines now)\n", time.Since(t0).Round(time.Millisecond), runtime.NumGoroutine())
+	t0 = time.Now()
+	runPullLoops(f, res, drv, rng)
+	fmt.Fprintf(os.Stderr, "c17: Group Pull loops in %v (%d goroutines now)\n", time.Since(t0).Round(time.Millisecond), runtime.NumGoroutine())
+	t0 = time.Now()
+	runtime.GOMAXPROCS(4)
+	runAdapters(f, res, drv)
+	fmt.Fprintf(os.Stderr, "c17: Group adapters (model servers) in %v (%d goroutines now)\n", time.Since(t0).Round(time.Millisecond), runtime.NumGoroutine())
+	// Large groups last: a leak there leaves up to hundreds of goroutines behind, which every later snapshot
+	// of the process would pay for (a thousand parked goroutines make the 13.6k small cases take 2 minutes).
+	t0 = time.Now()
+	runtime.GOMAXPROCS(1)
+	lcases := largeCases(f, rng)
+	runGroupCases(lcases, drv, mon, len(lcases), func(i int) (*lib.Tie, bool) { return large, true })
+	burst := res.Monitor("group-burst",
+		"every member released AT ONCE on 4 Ps (no serial schedule: the goroutines of executeEach really race; the completion order is whatever the scheduler makes it), "+
+			"0..257 members x every strategy through both APIs x {all succeed, all fail, a random mix with members that watch their context and sometimes a caller that has cancelled, exactly n/2, n/2+1, n-1 failing}; judged on what does not depend on the order: the call returns, no panic, "+
+			"no goroutine left once every member has returned, result slice of length n with results[i] = member i's message (single-result strategies: one slot, a member's own message at its own index), "+
+			"error present iff the failure count exceeds the budget (Fast: iff all fail; Race: iff the reported member failed) and being one of the failing members' errors")
+	runtime.GOMAXPROCS(4)
+	runBursts(f, burst, rng)
+	fmt.Fprintf(os.Stderr, "c17: large groups (%d serial cases) and bursts in %v (%d goroutines now)\n", len(lcases), time.Since(t0).Round(time.Millisecond), runtime.NumGoroutine())
+	if err := res.Write(f.Out); err != nil {
+		lib.Fatal(err)
+	}
+}
+
+// Degraded mode.  Goroutines left behind by leaking / never-returning calls cannot be removed, and every later
+// snapshot of the process pays for each of them (26 of them make the 13.6k small cases take 24 s instead of 4).
+// Such a run has failed already; to keep it short the remaining cases are thinned: with L goroutines left
+// behind, only one case in 1+L/4 is run - except that the first case of every (entry point, member count)
+// always runs, so that every class still gets its chance to show its own failure.
+var baselineGoroutines int
+
+type thinner struct{ seen map[string]bool }
+
+func (t *thinner) skip(i int, class string) bool {
+	if t.seen == nil {
+		t.seen = map[string]bool{}
+	}
+	if !t.seen[class] {
+		t.seen[class] = true
+		return false
+	}
+	thin := 1 + (runtime.NumGoroutine()-baselineGoroutines)/4
+	return thin > 1 && i%thin != 0
+}
+
+// runGroupCases runs gated pkg/group cases through the driver (tie) and the contracts (monitor).
+// tieOf names the tie a case is recorded in and whether it counts as non-trivial there; from case number
+// parallelFrom on the process runs on 4 Ps.
+func runGroupCases(cases []tcase, drv *lib.Driver, mon *lib.Monitor, parallelFrom int, tieOf func(i int) (*lib.Tie, bool)) {
+	var answers []string
+	if drv != nil {
+		lines := make([]string, len(cases))
+		for i, c := range cases {
+			lines[i] = c.line()
+		}
+		var err error
+		answers, err = drv.Batch(lines)
+		if err != nil {
+			failed := map[*lib.Tie]bool{}
+			for i := range cases {
+				if t, _ := tieOf(i); !failed[t] {
+					failed[t] = true
+					t.Fail(err)
+				}
+			}
+			answers = nil
+		}
+	}
+	leaks := map[string]int{}      // leaking cases per entry point
+	leakedGors := map[string]int{} // goroutines they left behind
+	hangs := map[string]int{}      // calls that never returned
+	var thin thinner
 	for i, c := range cases {
 		if i == parallelFrom {
 			runtime.GOMAXPROCS(4)
 		}
-		if leaks[c.fn()] >= 25 {
-			// every leaked goroutine stays in all later snapshots; after 25 leaking cases of one entry
-			// point (the run has failed on it anyway) its remaining cases are skipped to keep the run short
-			mon.Count("skipped-after-25-leaking-cases:" + c.fn())
+		if leaks[c.fn()] >= 4 || leakedGors[c.fn()] >= 40 || hangs[c.fn()] >= 3 || hangs[fmt.Sprint(c.fn(), "/n=", c.n())] >= 1 {
+			// every leaked goroutine stays in all later snapshots (13.6k cases took 2 minutes instead of 4 s with
+			// a thousand of them); after 4 leaking cases / 40 leaked goroutines / 3 calls that never returned of one
+			// entry point, or one that never returned with this number of members (the run has failed on it anyway),
+			// its remaining cases are skipped to keep the run short
+			mon.Count("skipped-after-leaking-cases:" + c.fn())
+			continue
+		}
+		if thin.skip(i, fmt.Sprint(c.fn(), "/n=", c.n())) {
+			mon.Count("thinned-after-leaks")
 			continue
 		}
 		o := runCase(c)
 		// self-confirming, as for the adapters: report only what reproduces in 3 more executions
+		// (a call that never returned / left goroutines: one more - every execution leaves them behind)
 		suspicious := func(o obs) bool {
 			return (answers != nil && answers[i] != o.canon(c)) || len(contract(c, o)) > 0
 		}
 		if suspicious(o) {
 			mon.Count("retried-cases")
-			for k := 0; k < 3; k++ {
-				if o2 := runCase(c); !suspicious(o2) {
+			retries := 3
+			if o.Stuck != "" || len(o.Left) > 0 {
+				retries = 1
+			}
+			for k := 0; k < retries; k++ {
+				leakedGors[c.fn()] += len(o.Left)
+				o2 := runCase(c)
+				if !suspicious(o2) {
 					mon.Count("retried-and-vanished")
 					mon.Count("retried-and-vanished:" + c.line() + " first=" + o.canon(c))
 					o = o2
 					break
 				}
+				o = o2
 			}
 		}
 		if len(o.Left) > 0 {
 			leaks[c.fn()]++
+			leakedGors[c.fn()] += len(o.Left)
+		}
+		if o.Stuck != "" && o.Ret < 0 {
+			hangs[c.fn()]++
+			hangs[fmt.Sprint(c.fn(), "/n=", c.n())]++
 		}
 		code := o.canon(c)
-		t := rnd
-		nontrivial := c.n() >= 2
-		if isExh[i] {
-			t = exh
-			nontrivial = c.n() >= 1
-		}
+		t, nontrivial := tieOf(i)
 		if answers != nil {
 			t.Record(c.key(), nontrivial, c, answers[i], code)
 		}
 		t.Count("strategy:" + c.API + "/" + c.Strat)
-		t.Count(fmt.Sprintf("n=%d", c.n()))
+		if c.n() <= 9 {
+			t.Count(fmt.Sprintf("n=%d", c.n()))
+		} else {
+			t.Count(fmt.Sprintf("n=%d..%d", c.n()/10*10, c.n()/10*10+9))
+		}
 		for _, b := range c.Behs {
 			if b.Normal.Err != 0 {
 				t.Count("member-error-class:" + errClassOf(b.Normal.Err))
@@ -145,24 +248,6 @@ func main() {
 			}
 		}
 		monitorCase(mon, c, o)
-	}
-	if answers == nil {
-		drv = nil
-	}
-	fmt.Fprintf(os.Stderr, "c17: %d gated pkg/group cases in %v\n", len(cases), time.Since(t0).Round(time.Millisecond))
-	t0 = time.Now()
-	runtime.GOMAXPROCS(1)
-	runGatedAdapters(f, res, drv, rng)
-	fmt.Fprintf(os.Stderr, "c17: Group adapters (gated members) in %v\n", time.Since(t0).Round(time.Millisecond))
-	t0 = time.Now()
-	runPullLoops(f, res, drv, rng)
-	fmt.Fprintf(os.Stderr, "c17: Group Pull loops in %v\n", time.Since(t0).Round(time.Millisecond))
-	t0 = time.Now()
-	runtime.GOMAXPROCS(4)
-	runAdapters(f, res, drv)
-	fmt.Fprintf(os.Stderr, "c17: Group adapters (model servers) in %v\n", time.Since(t0).Round(time.Millisecond))
-	if err := res.Write(f.Out); err != nil {
-		lib.Fatal(err)
 	}
 }
 
@@ -229,6 +314,46 @@ func exhaustiveCases(f lib.Flags) []tcase {
 			}
 		}
 	}
+	// the caller's context ends (cancelled, or its deadline passes) at every point of the call x members that watch
+	// their context (they report the context's error when they find it done, as a device call does): 1..3 members x
+	// every ok/fail vector x every completion order x every point 0..n-1 x both reasons, through Execute with the six
+	// strategies and ExecuteUpTo with every budget 0..n-1
+	for n := 1; n <= 3; n++ {
+		type sa struct {
+			api, strat string
+			allowed    int
+		}
+		var combos []sa
+		for _, st := range []string{"all", "most", "any", "one", "fast", "race"} {
+			combos = append(combos, sa{"x", st, 0})
+		}
+		for a := 0; a < n; a++ {
+			combos = append(combos, sa{"d", "upto", a})
+		}
+		for _, cb := range combos {
+			for bits := 0; bits < 1<<n; bits++ {
+				for _, expire := range []bool{false, true} {
+					onCancel := resp{Err: errNum(ecCanceled, 0)}
+					if expire {
+						onCancel = resp{Err: errNum(ecDeadline, 0)}
+					}
+					behs := make([]beh, n)
+					for i := range behs {
+						if bits>>i&1 == 1 {
+							behs[i] = beh{Normal: resp{Err: i + 1}, Aware: true, OnCancel: onCancel}
+						} else {
+							behs[i] = beh{Normal: resp{Msg: i + 1}, Aware: true, OnCancel: onCancel}
+						}
+					}
+					for _, p := range perms(n) {
+						for pc := 0; pc < n; pc++ {
+							out = append(out, tcase{API: cb.api, Strat: cb.strat, Allowed: cb.allowed, Behs: behs, Order: p, PCancel: pc, PExpire: expire})
+						}
+					}
+				}
+			}
+		}
+	}
 	// every class of member error x every strategy: failing members fail with an error of the class (their own
 	// context errors, wrapped, status, timeout, EOF) while the group's context is alive
 	for n := 1; n <= 3; n++ {
@@ -281,6 +406,10 @@ func randomCase(r *rand.Rand) tcase {
 	if r.Intn(4) == 0 {
 		n = 2 + r.Intn(3)
 	}
+	return randomCaseN(r, n)
+}
+
+func randomCaseN(r *rand.Rand, n int) tcase {
 	ids := 1 + r.Intn(n+2) // few ids => repeated messages/errors across members
 	c := tcase{PCancel: -1, Behs: make([]beh, n), Order: r.Perm(n)}
 	failBias := r.Intn(3)
@@ -316,8 +445,100 @@ func randomCase(r *rand.Rand) tcase {
 	}
 	if n > 0 && r.Intn(4) == 0 {
 		c.PCancel = r.Intn(n)
+		c.PExpire = r.Intn(3) == 0
 	}
 	return c
+}
+
+// largeCases: groups far larger than the exhaustive and random domains (9 .. 100 members; thorough: up to 257)
+// for every strategy through both APIs.  What a large group can show and a small one cannot: anything in
+// executeEach / the collectors that is sized or bounded by a constant rather than by len(members) - a
+// response buffer with a fixed capacity lets the losers of Fast/Race block for ever in their send once more
+// than that many of them return after the winner, although every returned value is right.  Fast and Race get
+// four outcome/order patterns per size (winner first in index order, winner = last index, a mix in random
+// order, all fail), the draining strategies and One a mix in random order.  Sizes sit on both sides of the
+// usual constants (8, 16, 32, 64, 128, 256).  Sorted by size: the smallest leaking group becomes the replay.
+func largeCases(f lib.Flags, r *rand.Rand) []tcase {
+	sizes := []int{9, 10, 16, 17, 33, 65, 100}
+	if f.Thorough() {
+		sizes = []int{9, 10, 11, 12, 16, 17, 18, 24, 32, 33, 34, 64, 65, 66, 100, 128, 129, 130, 257}
+	}
+	type as struct{ api, strat string }
+	combos := []as{{"x", "all"}, {"x", "most"}, {"x", "any"}, {"x", "one"}, {"x", "fast"}, {"x", "race"}, {"x", "unspec"},
+		{"d", "all"}, {"d", "most"}, {"d", "any"}, {"d", "one"}, {"d", "fast"}, {"d", "race"}, {"d", "upto"}}
+	ident := func(n int) []int {
+		p := make([]int, n)
+		for i := range p {
+			p[i] = i
+		}
+		return p
+	}
+	var out []tcase
+	for _, n := range sizes {
+		for _, cb := range combos {
+			mixed := func() tcase {
+				c := tcase{API: cb.api, Strat: cb.strat, Behs: make([]beh, n), Order: r.Perm(n), PCancel: -1}
+				bias := 1 + r.Intn(4) // 1 in 2..5 members fail
+				for i := range c.Behs {
+					if r.Intn(bias+1) == 0 {
+						c.Behs[i] = beh{Normal: resp{Err: errNum(ecPlain, i+1)}}
+					} else {
+						c.Behs[i] = beh{Normal: resp{Msg: i + 1}}
+					}
+					if r.Intn(4) == 0 {
+						c.Behs[i].Aware, c.Behs[i].OnCancel = true, resp{Err: errNum(ecCanceled, 0)}
+					}
+				}
+				if cb.strat == "upto" {
+					c.Allowed = []int{-1, 0, 1, n / 2, n - 1, n}[r.Intn(6)]
+				}
+				return c
+			}
+			out = append(out, mixed())
+			if cb.strat != "fast" && cb.strat != "race" && cb.strat != "one" {
+				// the thresholds at this size: exactly n/2, n/2+1 and n-1 failing members (none watches its context, so
+				// the failure count is the one chosen), at random positions, in random order
+				for _, k := range []int{n / 2, n/2 + 1, n - 1} {
+					c := tcase{API: cb.api, Strat: cb.strat, Behs: make([]beh, n), Order: r.Perm(n), PCancel: -1}
+					for i, pos := range r.Perm(n) {
+						if i < k {
+							c.Behs[pos] = beh{Normal: resp{Err: errNum(ecPlain, pos+1)}}
+						} else {
+							c.Behs[pos] = beh{Normal: resp{Msg: pos + 1}}
+						}
+					}
+					if cb.strat == "upto" {
+						c.Allowed = k - r.Intn(2) // the budget is met exactly, or exceeded by one
+					}
+					out = append(out, c)
+				}
+			}
+			if cb.strat != "fast" && cb.strat != "race" {
+				continue
+			}
+			all := func(fail bool, order []int) tcase {
+				c := tcase{API: cb.api, Strat: cb.strat, Behs: make([]beh, n), Order: order, PCancel: -1}
+				for i := range c.Behs {
+					if fail {
+						c.Behs[i] = beh{Normal: resp{Err: errNum(ecPlain, i+1)}}
+					} else {
+						c.Behs[i] = beh{Normal: resp{Msg: i + 1}}
+					}
+				}
+				return c
+			}
+			rev := ident(n)
+			for i, j := 0, n-1; i < j; i, j = i+1, j-1 {
+				rev[i], rev[j] = rev[j], rev[i]
+			}
+			out = append(out, all(false, ident(n)), all(false, rev), all(true, r.Perm(n)))
+		}
+	}
+	for k := 0; k < f.N(150, 3000); k++ {
+		out = append(out, randomCaseN(r, 10+r.Intn(15)))
+	}
+	sort.SliceStable(out, func(i, j int) bool { return out[i].n() < out[j].n() })
+	return out
 }
 
 func replay(f lib.Flags) int {
@@ -396,9 +617,22 @@ func replay(f lib.Flags) int {
 		return 0
 	}
 	c := tcase{PCancel: -1}
-	if err := json.Unmarshal(b, &c); err != nil || len(c.Order) != len(c.Behs) {
+	if err := json.Unmarshal(b, &c); err != nil || (len(c.Order) != len(c.Behs) && !c.Burst) {
 		fmt.Println("replay: input is not a C17 case:", string(b))
 		return 2
+	}
+	if c.Burst {
+		o := runBurst(c)
+		fs := burstContract(c, o)
+		fmt.Printf("replay burst %s\n  -> %s\n", c.line(), o.canon(c))
+		for _, v := range fs {
+			fmt.Printf("STILL FAILS C17/%s/burst/%s: %s (expected %s, observed %s)\n", c.fn(), v.class, v.what, v.expected, v.observed)
+		}
+		if len(fs) > 0 {
+			return 1
+		}
+		fmt.Println("replay: property holds on this input now")
+		return 0
 	}
 	o := runCase(c)
 	fmt.Printf("replay %s\n  -> %s\n", c.line(), o.canon(c))
